@@ -284,6 +284,10 @@ def rot_gap_ok(M, mirror):
     if mirror:
         return (s[-2] + s[-1]) > 2e-3 * s[0]
     dm = np.linalg.det(M)
+    if s[-1] <= 1e-12 * s[0]:
+        # exactly rank-deficient correlation (coplanar 3-D landmarks, three points after centring): the proper
+        # rotation U diag(1,..,1,det(U V^T)) V^T is still unique and well conditioned as long as s[-2] > 0
+        return s[-2] > 2e-3 * s[0]
     if abs(dm) < 1e-6 * s[0] ** len(s):
         return False
     sign = 1.0 if dm > 0 else -1.0
@@ -296,10 +300,21 @@ def gen_homog_case(rng, cls, opts, d=None, kind=None):
     rotating = cls == "rotation" or (cls == "similarity" and opts.get("rotation"))
     if rotating and not opts["mirror"] and kind in ("noise1", "noise2", "arbitrary") and rng.random() < 0.6:
         kind = "improper"
+    planar = d == 3 and rotating and not opts["mirror"] and rng.random() < 0.3
+    if planar and kind in ("improper", "arbitrary"):
+        kind = "noise1" if kind == "improper" else "noise3"   # gen_points cannot draw fewer than d+1 points
     for _ in range(200):
         n = rng.randint(d + 1, 12) if rng.random() < 0.85 else d + 1
         n = max(n, 3)
-        S = gen_points(rng, n, d)
+        if planar:
+            # coplanar 3-D landmarks (a flat template) or just three points: the correlation matrix has rank 2
+            n = rng.choice([3, 3, 4, 5, 7])
+            P2 = gen_points(rng, n, 2)
+            a, b = rng.randint(-2, 2), rng.randint(-2, 2)
+            S = np.column_stack([P2[:, 0], P2[:, 1], a * P2[:, 0] + b * P2[:, 1]])
+            S = S[:, rng.sample(range(3), 3)]
+        else:
+            S = gen_points(rng, n, d)
         T, member = gen_target(rng, cls, opts, S, kind)
         if cls in ("rotation", "similarity") and (cls == "rotation" or opts.get("rotation")):
             if cls == "rotation":
